@@ -23,7 +23,14 @@ THEOREMS = ['CC.C04_linear', 'CC.C04_superpose', 'CC.C04_reported_superpose', 'C
             'CC.physEqs_lin', 'CC.C16_zero_voltage_spec', 'CC.C16_zero_current_spec']
 THEOREMS += ['CC.C16_gen_shortCircuitifyVS', 'CC.C16_gen_openCircuitifyCS', 'CC.C16_gen_keep', 'CC.C16_gen_construct', 'CC.C16_gen_finite']
 LEAN_MODULE_EXTRA = ['CC.Properties.C16', 'CC.Properties.C16Gen']
-OPEN_STATEMENTS = ['C04_superpose is PARTIAL: it excludes the reported current of linear (lossy) sources by hypothesis (isLossy = false) — the full statement is false for the current code (open finding C04); C04_scale needs a ≠ 0 (a = 0 is C04_zero_all); C04_reported_superpose covers potentials and voltages, no reported-level scale theorem; C04_scale_power is the ring identity |a|² behind the clause',
+# round 5: reported-level scaling (any a, zero included), zero case, reported currents, and the kernel-checked counterexample
+# for the reported current of lossy sources (CC/Properties/C04More.lean)
+LEAN_MODULE_EXTRA += ['CC.Properties.C04More']
+THEOREMS += ['CC.C04_reported_scale', 'CC.C04_reported_zero_all', 'CC.C04_reported_superpose_current',
+             'CC.C04_lossy_current_counterexample', 'CC.C04_reported_lossy_current_counterexample',
+             'CC.withSrc_wf', 'CC.withSrc_wellPosed', 'CC.C04_scale_factor_is_abs_sq']
+OPEN_STATEMENTS = ['C04_superpose / C04_reported_superpose_current are PARTIAL: they exclude the reported current of linear (lossy) sources by hypothesis (isLossy = false in all three networks) — the full statement is false for the current code (open finding C04), now kernel-checked: C04_lossy_current_counterexample (Spec level) and C04_reported_lossy_current_counterexample (values get_current returns: -3/2 != -2 + -1/2 for Vq=8V,Z=2 parallel Iq=1A,Y=1/2); only the physical current of such a branch superposes (C04_linear)',
+                   'C04_reported_scale (any scale factor, zero included; potentials, voltages, reported currents incl. lossy sources, power by a*conj a) and C04_reported_zero_all are exact-arithmetic statements about every solution vector of the matrix equations of a valid (no self-loop), well-posed skeleton; floating-point rounding and ill-posed networks are covered by the oracle only; conj is an arbitrary ring endomorphism; a*conj a = |a|^2 is proved for the Gaussian rationals of the driver (C04_scale_factor_is_abs_sq), not for the complex numbers of Mathlib',
                    'the link from short_circuitify_voltage_sources / open_circuitify_current_sources to `withSrc … 0` is C16_zero_*_spec plus the structural correspondence, not one composed theorem',
                    'superposition for skeletons in which the zeroing operation changes the record class (Thevenin lossy source zeroed into a Norton impedance): electrically the same immittance; covered by the metamorphic oracle']
 ASSUMPTIONS = ['theorems are about the Spec over a fixed skeleton; the link to the library operations is C16_zero_*_spec plus the structural correspondence',
